@@ -55,7 +55,9 @@ inductive CPh
   | notifying  -- inside stopSource_.request_stop() as the first requester
   | preDec     -- about to `refCount_.fetch_sub(1)`
   | dlv1       -- elected (old value 1): about to `stopCallback_.destruct()`
-  | dlv2       -- about to read the receiver's token and signal the receiver
+  | dlv2       -- when_all: about to load the receiver's stop flag (set_done if set);
+               -- when_all_range: about to load doneOrError_ and signal the receiver
+  | dlv3       -- when_all: about to load doneOrError_ and signal the receiver
   | fin
   deriving DecidableEq, Repr
 
@@ -67,7 +69,7 @@ inductive SPh
   | preOwnStop  -- old value was not 0: about to call stopSource_.request_stop()
   | notifying
   | preDec      -- `element_complete()`
-  | dlv1 | dlv2 -- elected: deliver_result() from inside the callback
+  | dlv1 | dlv2 | dlv3 -- elected: deliver_result() from inside the callback
   | cbRet       -- the callback returns
   | ret         -- request_stop() on the receiver's source returns
   | fin
@@ -162,18 +164,16 @@ def cbBodySteps (cfg : Config) (s : St) (t : Nat) (k : Nat) : List (Lbl × St) :
 
 def allGone (s : St) : Bool := s.ch.all (fun c => c.cbst != 0)
 
-/-- result chosen by `deliver_result()` -/
-def chooseRes (cfg : Config) (s : St) : Res :=
-  if cfg.checksRecv && s.recvStop then .done
-  else if s.doe then (match s.err with | some k => .error k | none => .done)
-  else .value
+/-- the result `deliver_result()` chooses once the receiver's stop flag has been found clear (or is not
+    consulted at all: when_all_range) -/
+def resByDoe (s : St) : Res :=
+  if s.doe then (match s.err with | some k => .error k | none => .done) else .value
 
-def signalLbl (cfg : Config) (s : St) (t : Nat) : Lbl := ev t s!"root.{(chooseRes cfg s).text}"
+def signalLbl (r : Res) (t : Nat) : Lbl := ev t s!"root.{r.text}"
 
-/-- the completion signal: reads doneOrError_/error_/values_ and the receiver's stop flag -/
-def signalSt (cfg : Config) (s : St) (t : Nat) : St :=
-  { touch s with delivered := s.delivered + 1, result := some (chooseRes cfg s), dlvBy := t,
-                 recvAtDlv := s.recvStop }
+/-- the completion signal (reads doneOrError_/error_/values_ or the receiver's stop flag just before) -/
+def signalSt (s : St) (t : Nat) (r : Res) : St :=
+  { touch s with delivered := s.delivered + 1, result := some r, dlvBy := t }
 
 /-- steps of the completion of child `j` -/
 def stepChild (cfg : Config) (s : St) (j : Nat) : List (Lbl × St) :=
@@ -213,7 +213,12 @@ def stepChild (cfg : Config) (s : St) (j : Nat) : List (Lbl × St) :=
       if s.cbRunning ∧ t ≠ stopTid cfg then []
       else [(tau t, setCh { touch s with cbReg := false } j { c with ph := .dlv2 })]
     | .dlv2 =>
-      [(signalLbl cfg s t, setCh (signalSt cfg s t) j { c with ph := .fin })]
+      if cfg.checksRecv then
+        if s.recvStop then
+          [(signalLbl .done t, setCh { signalSt s t .done with recvAtDlv := true } j { c with ph := .fin })]
+        else [(tau t, setCh (touch s) j { c with ph := .dlv3 })]
+      else [(signalLbl (resByDoe s) t, setCh (signalSt s t (resByDoe s)) j { c with ph := .fin })]
+    | .dlv3 => [(signalLbl (resByDoe s) t, setCh (signalSt s t (resByDoe s)) j { c with ph := .fin })]
     | .fin => []
 
 /-- steps of the external stop thread -/
@@ -241,7 +246,12 @@ def stepStop (cfg : Config) (s : St) : List (Lbl × St) :=
     else [(tau t, { touch s with refCount := s.refCount - 1, stopPh := .cbRet })]
   | .dlv1 => [(tau t, { touch s with cbReg := false, stopPh := .dlv2 })]
   | .dlv2 =>
-    [(signalLbl cfg s t, { signalSt cfg s t with stopPh := .cbRet })]
+    if cfg.checksRecv then
+      if s.recvStop then
+        [(signalLbl .done t, { signalSt s t .done with recvAtDlv := true, stopPh := .cbRet })]
+      else [(tau t, { touch s with stopPh := .dlv3 })]
+    else [(signalLbl (resByDoe s) t, { signalSt s t (resByDoe s) with stopPh := .cbRet })]
+  | .dlv3 => [(signalLbl (resByDoe s) t, { signalSt s t (resByDoe s) with stopPh := .cbRet })]
   | .cbRet => [(tau t, { s with cbRunning := false, stopPh := .ret })]
   | .ret => [(ev t "stop.end", { s with stopPh := .fin })]
   | .fin => []
@@ -259,12 +269,12 @@ def final (cfg : Config) (s : St) : Bool :=
 /-! ### the property as a Boolean state predicate (used by the reflection instances) -/
 
 def CPh.decremented : CPh → Bool
-  | .dlv1 | .dlv2 | .fin => true
+  | .dlv1 | .dlv2 | .dlv3 | .fin => true
   | _ => false
 
 /-- the child is past its exchange and its `stopSource_.request_stop()` call -/
 def CPh.pastStop : CPh → Bool
-  | .preDec | .dlv1 | .dlv2 | .fin => true
+  | .preDec | .dlv1 | .dlv2 | .dlv3 | .fin => true
   | _ => false
 
 /-- result precedence, stated independently of `chooseRes`: receiver stop > first error/done > values -/
@@ -300,16 +310,16 @@ def n2o : Nat → Option Nat | 0 => none | k + 1 => some k
 
 def CPh.code : CPh → Nat
   | .run => 0 | .claimed => 1 | .preX => 2 | .preStop => 3 | .notifying => 4 | .preDec => 5
-  | .dlv1 => 6 | .dlv2 => 7 | .fin => 8
+  | .dlv1 => 6 | .dlv2 => 7 | .fin => 8 | .dlv3 => 9
 def CPh.decode : Nat → CPh
   | 0 => .run | 1 => .claimed | 2 => .preX | 3 => .preStop | 4 => .notifying | 5 => .preDec
-  | 6 => .dlv1 | 7 => .dlv2 | _ => .fin
+  | 6 => .dlv1 | 7 => .dlv2 | 9 => .dlv3 | _ => .fin
 def SPh.code : SPh → Nat
   | .idle => 0 | .begun => 1 | .cbEnter => 2 | .preOwnStop => 3 | .notifying => 4 | .preDec => 5
-  | .dlv1 => 6 | .dlv2 => 7 | .cbRet => 8 | .ret => 9 | .fin => 10
+  | .dlv1 => 6 | .dlv2 => 7 | .cbRet => 8 | .ret => 9 | .fin => 10 | .dlv3 => 11
 def SPh.decode : Nat → SPh
   | 0 => .idle | 1 => .begun | 2 => .cbEnter | 3 => .preOwnStop | 4 => .notifying | 5 => .preDec
-  | 6 => .dlv1 | 7 => .dlv2 | 8 => .cbRet | 9 => .ret | _ => .fin
+  | 6 => .dlv1 | 7 => .dlv2 | 8 => .cbRet | 9 => .ret | 11 => .dlv3 | _ => .fin
 def Out.code : Out → Nat | .value => 0 | .error => 1 | .done => 2
 def Out.decode : Nat → Out | 0 => .value | 1 => .error | _ => .done
 def Res.code : Option Res → Nat
@@ -349,6 +359,8 @@ def cfgWa2Stop : Config := ⟨2, [some .value, some .value], [false, false], tru
 def cfgWa2ErrStop : Config := ⟨2, [some .error, some .value], [false, false], true, true⟩
 /-- when_all, child 0 reports done, child 1 only ever completes from inside its stop callback. -/
 def cfgWa2DoneInl : Config := ⟨2, [some .done, none], [false, true], false, true⟩
+/-- when_all, child 0 fails with an error, child 1 only ever completes from inside its stop callback. -/
+def cfgWa2ErrInl : Config := ⟨2, [some .error, none], [false, true], false, true⟩
 /-- when_all, both leaves complete only from inside their stop callbacks; T3 requests stop
     (deliver_result runs inside the stop callback). -/
 def cfgWa2StopInl : Config := ⟨2, [none, none], [true, true], true, true⟩
@@ -363,6 +375,7 @@ def cfgWar3Mix : Config := ⟨3, [some .value, some .error, none], [false, false
 
 def configs : List (String × Config) :=
   [("wa2_stop", cfgWa2Stop), ("wa2_err_stop", cfgWa2ErrStop), ("wa2_done_inl", cfgWa2DoneInl),
+   ("wa2_err_inl", cfgWa2ErrInl),
    ("wa2_stop_inl", cfgWa2StopInl), ("wa3_fail", cfgWa3Fail), ("wa3_mix", cfgWa3Mix),
    ("war2_stop", cfgWar2Stop), ("war3_mix", cfgWar3Mix)]
 
